@@ -57,7 +57,16 @@ def lit_table():
     return dict(_LITS)
 
 
-SORTS = {"int": INT, "bool": BOOL, "fl": FL, "str": STR, "g": G, "oint": OINT, "real": REAL, "og": OG}
+# ---- opaque arrays: immutable array *values* whose contents are not modelled; arithmetic on them is a deterministic
+# uninterpreted function of the operands, rows are genomes (row view) --------------------------------------------------
+OARR = z3.DeclareSort("OArr")
+oarr_bin = z3.Function("oarr_bin", INT, OARR, OARR, OARR)
+oarr_of_fl = z3.Function("oarr_of_fl", FL, OARR)
+oarr_col = z3.Function("oarr_col", INT, INT, OARR)        # (bounds array ref, column) -> column vector
+oarr_rows = z3.Function("oarr_rows", OARR, INT)
+oarr_row = z3.Function("oarr_row", OARR, INT, G)
+
+SORTS = {"int": INT, "bool": BOOL, "fl": FL, "str": STR, "g": G, "oint": OINT, "real": REAL, "og": OG, "oarr": OARR}
 
 
 def fl_of_real(r):
@@ -118,11 +127,45 @@ def fl_arith(op, a, b):
     if op == "-":
         return fl_arith("+", a, fl_neg(b))
     if op == "*":
+        # multiplication by a numeral (or a choice between numerals, e.g. `sign = -1.0 if maximize else 1.0`) stays linear and is
+        # exact on infinities too
+        for x, y in ((a, b), (b, a)):
+            d = _const_choice(x)
+            if d is not None:
+                return d(lambda c: _mul_const(c, y))
         fin = Fin(fv(a) * fv(b))
         return z3.If(z3.And(is_fin(a), is_fin(b)), fin, _fl_unk("mul", a, b))
     if op == "/":
         return z3.If(z3.And(is_fin(a), is_fin(b), fv(b) != 0), Fin(fv(a) / fv(b)), _fl_unk("div", a, b))
     raise NotImplementedError(op)
+
+
+def _numeral(t):
+    t = z3.simplify(t)
+    if z3.is_app(t) and t.decl().name() == "Fin" and z3.is_rational_value(t.arg(0)):
+        return t.arg(0)
+    return None
+
+
+def _const_choice(t):
+    """t is Fin(c) or If(cond, Fin(c1), Fin(c2)) with numerals: return a function that rebuilds the choice around a per-numeral result"""
+    c = _numeral(t)
+    if c is not None:
+        return lambda k: k(c)
+    ts = z3.simplify(t)
+    if z3.is_app(ts) and ts.decl().kind() == z3.Z3_OP_ITE:
+        c1, c2 = _numeral(ts.arg(1)), _numeral(ts.arg(2))
+        if c1 is not None and c2 is not None:
+            return lambda k: z3.If(ts.arg(0), k(c1), k(c2))
+    return None
+
+
+def _mul_const(c, y):
+    sgn = c.as_fraction()
+    if sgn == 0:
+        return z3.If(is_fin(y), Fin(z3.RealVal(0)), NaN)
+    inf_case = y if sgn > 0 else fl_neg(y)
+    return z3.If(is_fin(y), Fin(c * fv(y)), z3.If(z3.Or(is_pinf(y), is_ninf(y)), inf_case, NaN))
 
 
 _UNK = {}
